@@ -160,7 +160,7 @@ def r03_4(ctx):
 def rules(ctx):
     from ..engine import only
     from . import c06
-    return [__import__('vjsx.rules.c10', fromlist=['x']).field_ratchet('slot construction must not depend on visitor state beyond the documented registries'), r03_1, r03_3, r03_4, c11.r11_2, c02.r02_3, c06.r06_9,
+    return [__import__('vjsx.engine', fromlist=['x']).only(__import__('vjsx.rules.c10', fromlist=['x']).r10_1, lambda k: 'assignment_left' in k, 'the snapshot of an assigned variable (`_x`) is made for the one assignment it belongs to, not for later slots'), __import__('vjsx.rules.c10', fromlist=['x']).field_ratchet('slot construction must not depend on visitor state beyond the documented registries'), r03_1, r03_3, r03_4, c11.r11_2, c02.r02_3, c06.r06_9,
             only(c01.r01_1, lambda k: k.startswith(("component predicate", "the Fragment name")), "which hosts are components"),
             only(c14.r14_5, lambda k: "enable_object_slots" in k, "reach of enableObjectSlots")]
 
